@@ -123,8 +123,13 @@ class Solver(object):
         if use_solving_under_assumption:
             res = self.solve([formula])
         else:
-            self.add_assertion(formula)
-            res = self.solve()
+            try:
+                self.add_assertion(formula)
+                res = self.solve()
+            except Exception:
+                # Do not leave the internal push behind
+                self.pop()
+                raise
             self.pending_pop = True
 
         return res
